@@ -29,6 +29,12 @@ type Case struct {
 	C     int    `json:"c"`
 	Kr    int    `json:"kr"` // root: Kr frames of length and capacity
 	Steps []Step `json:"steps"`
+	// Grown > 0: the parent is not a window of an allocated root but the result of a
+	// growing Append: GrownPre single samples in a 1-frame buffer, then a source of Grown
+	// samples appended. Its capacity is the runtime's choice and need not be a whole number
+	// of frames; its per-channel length may then exceed its per-channel capacity.
+	Grown    int `json:"grown,omitempty"`
+	GrownPre int `json:"grownPre,omitempty"`
 }
 
 var table = map[string]func(*Case) kit.Result{}
@@ -67,7 +73,84 @@ func mulOverflows(c, x int) bool {
 	return p/x != c || (x == -1 && c == math.MinInt)
 }
 
+// runGrown: every Slice(s,e) with s,e in [-1, Capacity+2] on a buffer produced by a growing Append.
+func runGrown[T signal.SignalTypes](c *Case) (res kit.Result) {
+	C := c.C
+	if C < 2 || c.GrownPre < 0 || c.GrownPre >= C || c.Grown > 4096 {
+		return
+	}
+	mk := func() *signal.Buffer[T] {
+		b := signal.Alloc[T](signal.Allocator{Channels: C, Length: 0, Capacity: 1})
+		for k := 0; k < c.GrownPre; k++ {
+			b.AppendSample(T(kit.PartialVal(k)))
+		}
+		src := signal.Alloc[T](signal.Allocator{Channels: C, Length: 0, Capacity: c.Grown/C + 1})
+		for k := 0; k < c.Grown; k++ {
+			src.AppendSample(T(1 + k%90))
+		}
+		b.Append(src)
+		return b
+	}
+	b := mk()
+	ln, cp := b.Len(), b.Cap()
+	capF := cp / C
+	if b.Capacity() != capF || b.Length() != kit.CeilDiv(ln, C) {
+		res.Failf("grown parent (len %d cap %d, %d ch) reports Length %d Capacity %d", ln, cp, C, b.Length(), b.Capacity())
+		return
+	}
+	if cp%C != 0 {
+		res.Class("parentCapacityNotWholeFrames")
+	}
+	if b.Length() > capF {
+		res.Class("parentLengthExceedsCapacity")
+	}
+	res.Class("parentFromGrowingAppend")
+	bits := kit.BitsOf[T]()
+	for s := -1; s <= capF+2; s++ {
+		for e := -1; e <= capF+2; e++ {
+			what := fmt.Sprintf("Slice(%d,%d) on a grown buffer (len %d, cap %d samples, %d ch, per-channel length %d capacity %d)", s, e, ln, cp, C, kit.CeilDiv(ln, C), capF)
+			var child *signal.Buffer[T]
+			panicked, pv := kit.Try(func() { child = b.Slice(s, e) })
+			if !(0 <= s && s <= e && e <= capF) {
+				if !panicked {
+					res.Failf("%s: returned a view (len %d cap %d) instead of panicking", what, child.Len(), child.Cap())
+					return
+				}
+				continue
+			}
+			if panicked {
+				res.Failf("%s: valid range panicked: %v", what, pv)
+				return
+			}
+			want := kit.Hdr{Len: C * (e - s), Cap: cp - C*s, Length: e - s, Capacity: (cp - C*s) / C, Channels: C, BitDepth: bits}
+			if h := kit.HdrOf(child); h != want {
+				res.Failf("%s: child header %+v, want %+v", what, h, want)
+				return
+			}
+			if b.Len() != ln || b.Cap() != cp {
+				res.Failf("%s: parent changed to len %d cap %d", what, b.Len(), b.Cap())
+				return
+			}
+			// sharing: the child's sample (ch,i) is the parent's position C*(s+i)+ch
+			for k := 0; k < child.Len(); k++ {
+				v := T(100 + (k+s)%27)
+				child.SetSample(k, v)
+				if C*s+k < ln {
+					if got := b.Sample(C*s + k); !kit.Same(got, v) {
+						res.Failf("%s: wrote %s through child position %d, parent position %d reads %s", what, kit.Str(v), k, C*s+k, kit.Str(got))
+						return
+					}
+				}
+			}
+		}
+	}
+	return
+}
+
 func run[T signal.SignalTypes](c *Case) (res kit.Result) {
+	if c.Grown > 0 {
+		return runGrown[T](c)
+	}
 	C := c.C
 	bits := kit.BitsOf[T]()
 	root := kit.Root[T](C, c.Kr)
@@ -257,7 +340,7 @@ func run[T signal.SignalTypes](c *Case) (res kit.Result) {
 func FP(c *Case) uint64 {
 	h := kit.NewHasher()
 	h.Str(c.T)
-	h.Ints([]int{c.C, c.Kr, len(c.Steps)})
+	h.Ints([]int{c.C, c.Kr, len(c.Steps), c.Grown, c.GrownPre})
 	for _, s := range c.Steps {
 		h.Int(s.S)
 		h.Int(s.E)
@@ -302,6 +385,11 @@ func genBad(t *rapid.T, C, cp int) (int, int) {
 
 func Gen(t *rapid.T) *Case {
 	c := &Case{T: rapid.SampledFrom(names).Draw(t, "type"), C: kit.GenChannels(t)}
+	if c.C >= 2 && c.C <= 16 && rapid.IntRange(0, 7).Draw(t, "grownSel") == 0 {
+		c.Grown = rapid.IntRange(1, 60).Draw(t, "grown")
+		c.GrownPre = rapid.IntRange(0, c.C-1).Draw(t, "grownPre")
+		return c
+	}
 	c.Kr = kit.GenFrames(t, "kr", 400)
 	nsteps := rapid.IntRange(1, 5).Draw(t, "nsteps")
 	ln, cp := c.Kr, c.Kr
